@@ -68,8 +68,22 @@ func (v *VerifLexer) SetBquotes(open, d int) { v.p.openBquotes, v.p.openBquoteDb
 // StopAtHere is the stop-word test of Parser.next for the rune r that was just read.
 func (v *VerifLexer) StopAtHere(r rune) bool {
 	p := v.p
-	w := uint(utf8.RuneLen(r))
-	if p.bsp >= w && bytes.HasPrefix(p.bs[p.bsp-w:], p.stopAt) {
+	var enc [utf8.UTFMax]byte
+	k := 0
+	if r >= 0 && r <= utf8.MaxRune {
+		k = utf8.EncodeRune(enc[:], r)
+	}
+	stop := false
+	if k > 0 && len(p.stopAt) >= k && bytes.Equal(p.stopAt[:k], enc[:k]) {
+		need := len(p.stopAt) - k
+		for len(p.bs)-int(p.bsp) < need && int(p.bsp) <= len(p.bs) {
+			if p.fill() == 0 {
+				break
+			}
+		}
+		stop = int(p.bsp) <= len(p.bs) && bytes.HasPrefix(p.bs[p.bsp:], p.stopAt[k:])
+	}
+	if stop {
 		p.r = runeEOF
 		p.w = 1
 		p.tok = _EOF
